@@ -17,7 +17,8 @@
 EXTENDS Naturals, Integers, Sequences, FiniteSets, TLC, Json, IOUtils
 CONSTANTS MaxChain
 
-Ctxs == <<"while", "for", "block", "match", "lambda", "task">>
+\* "whilecond": the payload stands in a block that is the *condition* of a while loop
+Ctxs == <<"while", "for", "block", "match", "lambda", "task", "whilecond">>
 Payloads == <<"break", "continue", "return", "returnval", "read-let", "read-var", "assign-var", "compound-var", "read-loopvar",
               "push-array", "index-compound-user", "nested-lambda-capture", "match-on-captured", "try">>
 IsFnBoundary(c) == c \in {"lambda", "task"}
@@ -33,13 +34,14 @@ SameBody(ch) == IF ch = <<>> THEN <<>>
                 ELSE IF IsFnBoundary(ch[Len(ch)]) THEN <<>> ELSE Append(SameBody(SubSeq(ch, 1, Len(ch) - 1)), ch[Len(ch)])
 LoopInBody(ch) == \E i \in 1..Len(SameBody(ch)) : IsLoop(SameBody(ch)[i])
 HasFor(ch) == \E i \in 1..Len(ch) : ch[i] = "for"
-MustReject(ch, p) == p \in {"break", "continue"} /\ ~LoopInBody(ch)
+\* (a jump in a loop condition has no documented meaning: accepted-and-compiled or rejected are both admissible there)
+MustReject(ch, p) == p \in {"break", "continue"} /\ ~LoopInBody(ch) /\ ~\E i \in 1..Len(SameBody(ch)) : SameBody(ch)[i] = "whilecond"
 \* payloads that only make sense in some chains
 \* (a task that returns early would skip the completion message the main program waits for)
 InnerBoundary(ch) == IF \E i \in 1..Len(ch) : IsFnBoundary(ch[i])
                      THEN ch[CHOOSE i \in 1..Len(ch) : IsFnBoundary(ch[i]) /\ \A j \in (i + 1)..Len(ch) : ~IsFnBoundary(ch[j])] ELSE "none"
 Applicable(fnw, ch, p) == /\ (p = "read-loopvar" => HasFor(ch))
-                          /\ (p \in {"return", "returnval", "try"} => InnerBoundary(ch) # "task")
+                          /\ (p \in {"return", "returnval"} => InnerBoundary(ch) # "task")
                           /\ (p = "try" => fnw \/ \E i \in 1..Len(ch) : ch[i] = "lambda")
 
 RECURSIVE Ind(_)
@@ -70,6 +72,8 @@ Wrap(ch, k, p, lastFor) ==
   IF k > Len(ch) THEN PayloadLines(p, ind, lastFor)
   ELSE LET inner == Wrap(ch, k + 1, p, IF ch[k] = "for" THEN k ELSE lastFor) IN
     CASE ch[k] = "while" -> <<ind \o "var c" \o ds \o " = 0", ind \o "while c" \o ds \o " < 2 {", ind \o "  c" \o ds \o " += 1">> \o inner \o <<ind \o "}">>
+      [] ch[k] = "whilecond" -> <<ind \o "var c" \o ds \o " = 0", ind \o "while {">> \o inner \o
+                                <<ind \o "  c" \o ds \o " < 2", ind \o "} {", ind \o "  c" \o ds \o " += 1", ind \o "}">>
       [] ch[k] = "for"   -> <<ind \o "for i" \o ds \o " in 2 {">> \o inner \o <<ind \o "}">>
       [] ch[k] = "block" -> <<ind \o "if true {">> \o inner \o <<ind \o "}">>
       [] ch[k] = "match" -> <<ind \o "match 1 {", ind \o "  1 -> {">> \o inner \o <<ind \o "  }", ind \o "  _ -> {}", ind \o "}">>
@@ -99,7 +103,8 @@ Next == FALSE /\ UNCHANGED <<fnw, ch, pi>>
 HasTask == \E i \in 1..Len(ch) : ch[i] = "task"
 Emit == Applicable(fnw, ch, Payloads[pi]) =>
   PrintT(<<"CASE", ToJson([id |-> (IF fnw THEN "fn-" ELSE "top-") \o ChainName(ch) \o "_" \o Payloads[pi],
-                           mode |-> "both", run |-> TRUE,
+                           \* (`?` in a task would end the task before its completion message: such programs are only compiled)
+                           mode |-> "both", run |-> ~(Payloads[pi] = "try" /\ InnerBoundary(ch) = "task"),
                            files |-> ("main.abra" :> Text(fnw, ch, Payloads[pi])),
                            mustreject |-> MustReject(ch, Payloads[pi]),
                            payload |-> Payloads[pi], innermost |-> ch[Len(ch)],
